@@ -21,7 +21,51 @@ ENGINES = (('earley', 'basic'), ('earley', 'dynamic'), ('earley', 'dynamic_compl
            ('lalr', 'basic'), ('lalr', 'contextual'), ('cyk', 'basic'))
 
 
+from ..gram import Rule, Term, Grammar     # noqa: E402
+
+_X, _Y_, _K, _A = ('tok', 'X'), ('tok', '_Y'), ('lit', 'k'), ('ref', 'a')
+
+
+class TMENU:
+    """Hand-written template grammars (nested templates, literal / filtered / rule arguments, ! and _ templates, two
+    parameters, recursion).  The reference instantiates them with our own substitution (gram.instantiate_templates)."""
+    G = [
+        # nested templates, literal argument, ! on the inner template
+        [Rule('start', '', None, (((('tmpl', 'a', (_K,)),), None),)),
+         Rule('a', '', None, (((('tmpl', 'b', (('ref', 'x'),)), ('ref', 'x')), None),), ('x',)),
+         Rule('b', '!', None, (((('ref', 'y'),), None),), ('y',))],
+        # the same with the ! template used second
+        [Rule('start', '', None, (((('tmpl', 'a', (_K,)),), None),)),
+         Rule('a', '', None, (((('ref', 'x'), ('tmpl', 'b', (('ref', 'x'),))), None),), ('x',)),
+         Rule('b', '!', None, (((('ref', 'y'),), None),), ('y',))],
+        # two parameters: separated list, separator literal / filtered terminal / kept terminal
+        [Rule('start', '', None, (((('tmpl', 'sep', (_X, _K)), ('opt', ('tmpl', 'sep', (_A, _Y_)))), None),)),
+         Rule('sep', '', None, (((('ref', 'p'), ('star', ('group', ((('ref', 's'), ('ref', 'p')),)))), None),), ('p', 's')),
+         Rule('a', '', None, (((_X, _X), None),))],
+        # inlined template and ?template
+        [Rule('start', '', None, (((('tmpl', '_w', (_X,)), ('tmpl', 'q', (_A,))), None),)),
+         Rule('_w', '', None, (((_K, ('ref', 'p'), _K), None), ((('ref', 'p'),), None)), ('p',)),
+         Rule('q', '?', None, (((('ref', 'p'),), None), ((('ref', 'p'), _K, ('ref', 'p')), None)), ('p',)),
+         Rule('a', '', None, (((_X,), None), ((_Y_, _X), 'ali'))),],
+        # a template instantiated with itself as argument, ! outer
+        [Rule('start', '', None, (((('tmpl', 'w', (('tmpl', 'w', (_X,)),)),), None),)),
+         Rule('w', '!', None, (((_K, ('ref', 'p'), ('opt', _Y_)), None),), ('p',))],
+        # the same argument object under a keep-all rule and a plain rule (no nesting)
+        [Rule('start', '', None, (((('tmpl', 'b', (_K,)), ('tmpl', 'c', (_K,))), None),)),
+         Rule('b', '!', None, (((('ref', 'y'), _X), None),), ('y',)),
+         Rule('c', '', None, (((('ref', 'y'), _X), None),), ('y',))],
+    ]
+
+    def __len__(self):
+        return len(self.G)
+
+    def grammar(self, idx):
+        return Grammar(self.G[idx], families.SHAPE_TERMS)
+
+
 def box(name):
+    if name == 'tmenu':
+        return dict(fam=TMENU(), alpha='xyk', chunk=1)
     if name == 's1':
         return dict(fam=families.SHAPE(1), alpha='xyzw', chunk=8)
     if name == 's2':
@@ -35,8 +79,8 @@ def box(name):
     raise KeyError(name)
 
 
-TIERS = {'quick': [('s1', 1, 3), ('s2', 64, 3), ('x1', 1, 3), ('x2', 64, 3), ('lists', 4, 4)],
-         'thorough': [('s1', 1, 4), ('s2', 1, 3), ('x1', 1, 4), ('x2', 2, 3), ('lists', 1, 5)]}
+TIERS = {'quick': [('s1', 1, 3), ('s2', 64, 3), ('x1', 1, 3), ('x2', 64, 3), ('lists', 4, 4), ('tmenu', 1, 5)],
+         'thorough': [('s1', 1, 4), ('s2', 1, 3), ('x1', 1, 4), ('x2', 2, 3), ('lists', 1, 5), ('tmenu', 1, 6)]}
 
 
 def helper_cache_collision(g, same, keep_all):
